@@ -37,7 +37,7 @@ ASSUMPTIONS = ['scipy bicgstab returns x with ||(I-A)x-b||_2 <= max(atol, 1e-5 |
                'ARPACK eigs returns an eigenpair of the operator it was given (monitored: residual contract)',
                'scipy csr products / transposition / diags are the substrate of the float64 solvers',
                'float rounding is outside the theorems: float64 paths compared within 1e-9, float32 kernels within 2e-5 (DESIGN 8)',
-               'numpy sorts arrays of length <= 16 by insertion (stable): order of equal residuals in the push work-list']
+               'np.argsort(-residuals) returns a permutation sorting the residuals in descending order (ties in any order): the push work-list order is a parameter of the model, checked by a contract line']
 
 
 # ------------------------------------------------------------------------------------------------
@@ -136,8 +136,17 @@ def _do_job(job, mods):
             _, seeds, _ = mods['get_adjacency_values'](a, values=py_weights(job['weights']), default_value=0, which='probs')
             deg = a.dot(np.ones(n)).astype(np.int32)
             s = mods['PageRank'](damping_factor=job['damping'], solver='push', tol=job['tol']).fit_predict(a, py_weights(job['weights']))
-            return {'scores': [float(x) for x in s], 'deg': [int(x) for x in deg],
-                    'seeds': [float(x) for x in seeds.astype(np.float32)]}
+            # what np.argsort(-residuals) answers inside the kernel (equal residuals: numpy's order is not specified)
+            a32 = np.float32(job['damping'])
+            s32 = seeds.astype(np.float32)
+            rev = a.T.tocsr()
+            res = np.zeros(n, dtype=np.float32)
+            for v in range(n):
+                for jj in range(rev.indptr[v], rev.indptr[v + 1]):
+                    res[v] += 1 / deg[rev.indices[jj]]
+                res[v] *= (1 - a32) * a32 * (1 + s32[v])
+            return {'scores': [float(x) for x in s], 'deg': [int(x) for x in deg], 'seeds': [float(x) for x in s32],
+                    'order': [int(x) for x in np.argsort(-res)]}
         if kind == 'katz':
             a = csr_of(job['graph'])
             s = mods['Katz'](damping_factor=job['damping'], path_length=job['path_length']).fit_predict(a)
@@ -254,7 +263,9 @@ def spec_eps(solver, a, n, tol, contract=None):
         res = max(tol, 1e-5 * (1 - a))
         return F64_TOL + 4 * math.sqrt(n) * res / (1 - a) ** 2
     if solver in ('diteration', 'push'):
-        return F32_TOL * max(1.0, n / 4.0) + 2 * tol / (1 - a)      # diteration_error: residu < tol (1-a) at the stop
+        # diteration_error: residu < tol (1-a) at the stop; float32 rounding of the kernel is amplified by the
+        # condition number 1/(1-a) of the system
+        return F32_TOL * max(1.0, n / 4.0) * max(1.0, 0.2 / (1 - a)) + 2 * tol / (1 - a)
     raise ValueError(solver)
 
 
@@ -739,8 +750,9 @@ def eval_other(ctx, plan):
                 ctx.count('run:push:error')
                 continue
             sig['line'] = 'run'
-            run = 'c04.push %s %s %s %s %s' % (enc_graph(g), enc_ratlist(r['deg']), enc_rat(float(np.float32(job['damping']))),
-                                               enc_ratlist(r['seeds']), enc_rat(float(np.float32(job['tol']))))
+            run = 'c04.push %s %s %s %s %s %s' % (enc_graph(g), enc_ratlist(r['deg']), enc_rat(float(np.float32(job['damping']))),
+                                                  enc_ratlist(r['seeds']), enc_rat(float(np.float32(job['tol']))),
+                                                  enc_natlist(r['order']))
             spec = None
             tol = F32_TOL
         elif kind == 'closeness':
@@ -804,6 +816,10 @@ def eval_other(ctx, plan):
                     if [float(x) for x in dec_ratlist(ans[3:])] == [float(x) for x in dec_ratlist(impl[3:])]:
                         continue          # -0.0 versus 0
                 ctx.disagree(sig, job, ans, impl, line)
+            continue
+        if ans.startswith('contract-unmet'):
+            ctx.count('contract:argsort:unmet')
+            ctx.note('argsort contract unmet for the push work-list (float32 order differs from the exact order): case skipped')
             continue
         if not ans.startswith('ok '):
             ctx.disagree(sig, job, ans, impl, line)
